@@ -426,7 +426,7 @@ class FreeEnergy(InterpolatableFunction):
                 fieldList = np.empty((0, phase0.numFields()), dtype=float)
                 potentialEffList = np.empty((0, 1), dtype=float)
             else:
-                if len(TList) > 1:
+                if len(TList) > 0:
                     # combining up and down integrations
                     TFullList = np.append(np.flip(TList, 0), TFullList, axis=0)
                     fieldFullList = np.append(
